@@ -1,6 +1,9 @@
 //! Compile-time assertions: every public value type of tls-parser is Send + Sync, and the static
 //! cipher registry can be shared across threads.  A compile failure here is a violation of C18.
 #![allow(dead_code)]
+#![no_std]
+#[cfg(feature = "std")]
+extern crate std;
 use tls_parser::*;
 
 fn ok<T: Send + Sync>() {}
@@ -32,6 +35,7 @@ fn all<'a>() {
 mod phf_check {
     /// the static registry itself (a `phf::Map<u16, TlsCipherSuite>`)
     pub type Registry = &'static tls_parser::TlsCipherSuite;
+    #[cfg(feature = "std")]
     pub fn shared() -> usize {
         let r = &tls_parser::CIPHERS;
         std::thread::scope(|s| s.spawn(|| r.len()).join().unwrap())
